@@ -333,6 +333,11 @@ func runRefresh(c Case) (*ev.Failure, bool) {
 		if !exph.SameExceptTimeSeq(g, m.want) {
 			return ev.Failf("datagram %d: retransmitted template %d differs from the template that was sent", k, t.ID), overlapped
 		}
+		// a retransmitted template is a message of this exporting process like any other: its sequence
+		// number is the number of data records in the data messages that are on the wire before it
+		if hd.Seq != seq {
+			return ev.Failf("datagram %d (template %d retransmitted by the refresh activity) carries sequence number %d; the data messages on the wire before it hold %d records: numbering and writing are not one step", k, t.ID, hd.Seq, seq), overlapped
+		}
 		refreshCount[t.ID]++
 	}
 	if ptr != len(app) {
